@@ -37,7 +37,7 @@ func laneCase(raw json.RawMessage) ([]vf.Failure, error) {
 	return check(c), nil
 }
 
-var lanes = map[string]vf.LaneFunc{"accept": laneCase, "matrix": laneCase, "garbage": laneCase, "semantic": laneCase, "fuzz": laneCase}
+var lanes = map[string]vf.LaneFunc{"accept": laneCase, "matrix": laneCase, "garbage": laneCase, "semantic": laneCase, "fuzz": laneCase, "attributes": laneCase}
 
 func TestReplay(t *testing.T) {
 	if !vf.RunReplayMode(t, prop, lanes) {
@@ -167,7 +167,7 @@ func stageOf(err error) string {
 	case strings.Contains(msg, "loadExternalPackage") || strings.Contains(msg, "resolveDependencies") || strings.Contains(msg, "no files for package") || strings.Contains(msg, "circular dependency"):
 		return "load"
 	}
-	for _, marker := range []string{"at elements.", "at service ", "at topic ", "at property ", "schema error"} {
+	for _, marker := range []string{"at elements.", "at service ", "at topic ", "at property ", "schema error", "walker: "} {
 		if strings.Contains(msg, marker) {
 			return "sourcewalk"
 		}
